@@ -14,6 +14,7 @@ import (
 	"github.com/cloudflare/circl/group"
 	"github.com/cloudflare/circl/oprf"
 	"github.com/cloudflare/circl/zk/dleq"
+	"github.com/cloudflare/pat-go/quicwire"
 	"github.com/cloudflare/pat-go/tokens"
 	"github.com/cloudflare/pat-go/tokens/type1"
 	"github.com/cloudflare/pat-go/tokens/type2"
@@ -193,7 +194,16 @@ func init() {
 		case "1":
 			tok, err = w.st1.FinalizeToken(unhx(a[5]))
 		case "2":
-			tok, err = w.st2.FinalizeToken(unhx(a[5]))
+			if len(a) > 6 && a[6] == "odd" {
+				// a request created with a nonce / key id of unusual length (a[7..] = nonce keyid blind salt challenge)
+				st, e := type2.NewBasicPublicClient().CreateTokenRequestWithBlind(unhx(a[11]), unhx(a[7]), unhx(a[8]), w.i2.TokenKey(), unhx(a[9]), unhx(a[10]))
+				if e != nil {
+					return "err-create"
+				}
+				tok, err = st.FinalizeToken(unhx(a[5]))
+			} else {
+				tok, err = w.st2.FinalizeToken(unhx(a[5]))
+			}
 		}
 		if err != nil {
 			return "err"
@@ -205,10 +215,21 @@ func init() {
 		ty, _ := strconv.ParseUint(a[1], 10, 16)
 		tok := tokens.Token{TokenType: uint16(ty), Nonce: unhx(a[2]), Context: unhx(a[3]), KeyID: unhx(a[4]), Authenticator: unhx(a[5])}
 		var err error
+		// one issuer object per key for the whole run: verification must not depend on what was verified before
 		if a[0] == "1" {
-			err = type1.NewBasicPrivateIssuer(oprfKey(oprf.SuiteP384, unhx(a[8]))).Verify(tok)
+			iss, ok := c10iss1[a[8]]
+			if !ok {
+				iss = type1.NewBasicPrivateIssuer(oprfKey(oprf.SuiteP384, unhx(a[8])))
+				c10iss1[a[8]] = iss
+			}
+			err = iss.Verify(tok)
 		} else {
-			err = type5.NewBatchedPrivateIssuer(oprfKey(oprf.SuiteRistretto255, unhx(a[8]))).Verify(tok)
+			iss, ok := c10iss5[a[8]]
+			if !ok {
+				iss = type5.NewBatchedPrivateIssuer(oprfKey(oprf.SuiteRistretto255, unhx(a[8])))
+				c10iss5[a[8]] = iss
+			}
+			err = iss.Verify(tok)
 		}
 		if err != nil {
 			return "fail"
@@ -217,6 +238,9 @@ func init() {
 	}
 	replayers["c11.vector"] = func(c *Ctx, a []string) string { return c11Vector(c, a) }
 }
+
+var c10iss1 = map[string]*type1.BasicPrivateIssuer{}
+var c10iss5 = map[string]*type5.BatchedPrivateIssuer{}
 
 func runC01(c *Ctx) {
 	r := NewRng(c.Seed, "c01")
@@ -374,6 +398,12 @@ func runC10(c *Ctx) {
 				tok = ts[0]
 			}
 			all = append(all, issued{ty, keyseed, tok})
+			if k%2 == 1 {
+				// a forgery presented first must not change what happens to the honest token afterwards
+				f := tok
+				f.Context = append([]byte{tok.Context[0] ^ 1}, tok.Context[1:]...)
+				verify("forgery-first", ty, keyseed, f, "fail")
+			}
 			verify("honest", ty, keyseed, tok, "ok")
 			// every single-bit variant (sampled in quick)
 			enc := tok.Marshal()
@@ -401,6 +431,10 @@ func runC10(c *Ctx) {
 			// wire decoder can never produce it (fixed widths); recorded, not a violation
 			verify("boundary-shift", ty, keyseed, t2, "")
 		}
+	}
+	// honest tokens again, after everything else was presented to the same issuer objects
+	for _, a := range all {
+		verify("honest-again", a.ty, a.keyseed, a.tok, "ok")
 	}
 	// (token, key) matrix incl. the other type's issuer
 	for _, a := range all {
@@ -474,6 +508,39 @@ func runC02(c *Ctx) {
 	flipAll(w.resp["resp2"], c.Pick(17, 1), func(k string, m []byte) { fin2(k, m, true) })
 	fin2("foreign-key", w2.resp["resp2-otherkey"], true)
 	fin2("foreign-request", w2.resp["resp2-otherreq"], true)
+	// requests created with nonces / key ids of unusual length: the spliced token no longer parses at the
+	// request's field boundaries, so the re-verification must fail and no token may be returned
+	for _, shape := range [][2]int{{33, 32}, {34, 32}, {64, 32}, {31, 32}, {0, 32}, {32, 33}, {32, 31}} {
+		nonce, kid := r.Bytes(shape[0]), append(append([]byte{}, w.i2.TokenKeyID()...), 7)[:shape[1]]
+		blind := r.Bytes(256)
+		blind[0] &= 0x3f
+		salt, ch := r.Bytes(48), r.Bytes(9)
+		st, err := type2.NewBasicPublicClient().CreateTokenRequestWithBlind(ch, nonce, kid, w.i2.TokenKey(), blind, salt)
+		if err != nil {
+			continue
+		}
+		resp, err := w.i2.Evaluate(st.Request())
+		if err != nil {
+			continue
+		}
+		ti := append(append(append([]byte{0, 2}, nonce...), sha256b(ch)...), kid...)
+		fin, valid := "none", false
+		if sig, err := st.ForTestsOnlyVerifier().Finalize(resp); err == nil {
+			fin = hxv(sig)
+			spliced := append(append([]byte{}, ti...), sig...)
+			if len(spliced) >= 98+256 {
+				valid = pssValid(w.i2.TokenKey(), spliced[:98], spliced[98:98+256])
+			}
+		}
+		out := c.Run("c02.fin", "2", hx(ti), "1", fin, b2s(valid), hx(resp), "odd", hx(nonce), hx(kid), hx(blind), hx(salt), hx(ch))
+		c.Count(fmt.Sprintf("t2:odd-shape/%d/%d", shape[0], shape[1]))
+		if strings.HasPrefix(out, "ok ") {
+			m := unhx(out[3:])
+			okTok := len(m) == 98+256 && pssValid(w.i2.TokenKey(), m[:98], m[98:]) && bytes.Equal(m[2:34], nonce) && bytes.Equal(m[66:98], kid)
+			c.Direct(okTok, "finalize returned a token that does not verify under the pinned key or does not carry the request's nonce and key id",
+				map[string]any{"nonce_len": shape[0], "keyid_len": shape[1], "impl": out})
+		}
+	}
 	// ---- type 3 and 5: direct oracles (finalize needs state held inside the client) ----
 	probe := func(ty int, kind string, resp []byte, mustReject bool) {
 		var toks []tokens.Token
@@ -498,7 +565,7 @@ func runC02(c *Ctx) {
 		}
 		if mustReject {
 			c.Direct(toks == nil, "a response that must be rejected ("+kind+") was finalized", in)
-		} else if kind == "honest" {
+		} else if kind == "honest" || kind == "identity-rebuild" {
 			c.Direct(toks != nil, "honest response rejected", in)
 		}
 		nonces := [][]byte{bytes.Repeat([]byte{9}, 32), bytes.Repeat([]byte{8}, 32), bytes.Repeat([]byte{7}, 32)}
@@ -521,8 +588,9 @@ func runC02(c *Ctx) {
 	probe(5, "foreign-key", w2.resp["resp5-otherkey"], true)
 	// batch permutations: elements dropped, duplicated, rotated, swapped (proof kept)
 	r5 := w.resp["resp5"]
-	els := [][]byte{r5[1:33], r5[33:65], r5[65:97]}
-	proof := r5[97:]
+	_, vn := quicwire.ConsumeVarint(r5)
+	els := [][]byte{r5[vn : vn+32], r5[vn+32 : vn+64], r5[vn+64 : vn+96]}
+	proof := r5[vn+96:]
 	mk := func(es ...[]byte) []byte {
 		body := bytes.Join(es, nil)
 		return append(append(refEnc(uint64(len(body))), body...), proof...)
@@ -534,6 +602,10 @@ func runC02(c *Ctx) {
 	probe(5, "rotated", mk(els[1], els[2], els[0]), true)
 	probe(5, "swapped", mk(els[1], els[0], els[2]), true)
 	probe(5, "extra", mk(els[0], els[1], els[2], els[0]), true)
+	probe(5, "extra-junk", mk(els[0], els[1], els[2], r.Bytes(32)), true)
+	probe(5, "repeated-batch", mk(els[0], els[1], els[2], els[0], els[1], els[2]), true)
+	probe(5, "reversed", mk(els[2], els[1], els[0]), true)
+	probe(5, "replaced-by-foreign", mk(els[0], els[1], w2.resp["resp5-otherkey"][vn:vn+32]), true)
 	probe(5, "empty", mk(), true)
 }
 
